@@ -6,7 +6,8 @@ package main
 // Model: lean/FitModel/Writer.lean; driver: lean/Driver/Writer.lean.
 //
 //	wr  k=<plain|at|seek|both> bs=<n> m=<b|s> a=<arch> h=<hdropt> l=<lmt> pv=<n> v=<0|1> pre=<hex|-> f=<k.j,k.j…|-> c=<0|1> <files…>
-//	    one run. m: b = Encoder.Encode per file; s = StreamEncoder.WriteMessage per message + SequenceCompleted per file.
+//	    one run. m: b = Encoder.Encode per file; c = Encoder.EncodeWithContext (background context) per file;
+//	    s = StreamEncoder.WriteMessage per message + SequenceCompleted per file.
 //	    v=1: a stateful, transforming message validator (wrValidator below) instead of the pass-through one.
 //	    f: the k-th operation on the destination fails after taking at most j bytes. c=1: keep calling after an error.
 //	    → r=<result per API call> hit=<index of the call in which each fault fired> log=<destination operations> out=<hex> ci=<CheckIntegrity of out>
@@ -21,6 +22,7 @@ package main
 
 import (
 	"bytes"
+	"context"
 	"encoding/hex"
 	"errors"
 	"fmt"
@@ -314,7 +316,11 @@ func wrRun(c *wrCfg, faults map[int]int) (o wrOut, bad bool) {
 			if !ok {
 				return o, true
 			}
-			if !call(func() error { return enc.Encode(fit) }) && !c.cont {
+			encode := func() error { return enc.Encode(fit) }
+			if c.mode == "c" {
+				encode = func() error { return enc.EncodeWithContext(context.Background(), fit) }
+			}
+			if !call(encode) && !c.cont {
 				break
 			}
 		}
@@ -442,7 +448,7 @@ func execWrC(args []string) string {
 	}
 	var ref []byte
 	refName, n := "", 0
-	for _, mode := range []string{"b", "s"} {
+	for _, mode := range []string{"b", "c", "s"} {
 		if mode == "s" && !c.wrStreamComparable() {
 			continue
 		}
@@ -658,7 +664,7 @@ func genEncWriters(emit func(string), tier string, rng *Rng) {
 		if rng.Intn(3) == 0 {
 			nfiles = 1 + rng.Intn(4)
 		}
-		mode := []string{"b", "b", "s"}[rng.Intn(3)]
+		mode := []string{"b", "c", "s"}[rng.Intn(3)]
 		kind := wrKinds[rng.Intn(4)]
 		if mode == "s" && kind == "plain" && rng.Intn(10) != 0 {
 			kind = wrKinds[1+rng.Intn(3)]
@@ -761,7 +767,7 @@ func genEncFaults(emit func(string), tier string, rng *Rng) {
 			pre = wrPre(rng, byte(g.arch))
 		}
 		// sweep: every fault point of this input, for a few configurations
-		for _, mode := range []string{"b", "s"} {
+		for _, mode := range []string{[]string{"b", "c"}[rng.Intn(2)], "s"} {
 			kinds := []string{wrKinds[rng.Intn(4)], wrKinds[rng.Intn(4)]}
 			for _, kind := range kinds {
 				if mode == "s" && kind == "plain" {
@@ -774,7 +780,7 @@ func genEncFaults(emit func(string), tier string, rng *Rng) {
 		}
 		// single runs with one or several faults, some continuing after the error
 		for r := 0; r < 6; r++ {
-			mode := []string{"b", "s"}[rng.Intn(2)]
+			mode := []string{"b", "c", "s", "s"}[rng.Intn(4)]
 			kind := wrKinds[rng.Intn(4)]
 			if mode == "s" && kind == "plain" && rng.Intn(8) != 0 {
 				kind = "both"
